@@ -69,6 +69,32 @@ type c08Case struct {
 	// AllowMissing: the SP is configured with AllowMissingAttributes and the first assertion has
 	// no AttributeStatement at all (a conforming IdP may send none)
 	AllowMissing bool `json:"allow_missing_attributes,omitempty"`
+	// OuterWrap: the base64 text of the message as a MIME encoder writes it: 1 LF every 76
+	// characters, 2 CRLF every 64, 3 CRLF every 76, 4 one trailing CRLF
+	OuterWrap int `json:"outer_base64_wrap,omitempty"`
+}
+
+func c08WrapOuter(enc string, mode int) string {
+	width, sep := 0, ""
+	switch mode {
+	case 1:
+		width, sep = 76, "\n"
+	case 2:
+		width, sep = 64, "\r\n"
+	case 3:
+		width, sep = 76, "\r\n"
+	case 4:
+		return enc + "\r\n"
+	default:
+		return enc
+	}
+	var b strings.Builder
+	for len(enc) > width {
+		b.WriteString(enc[:width] + sep)
+		enc = enc[width:]
+	}
+	b.WriteString(enc)
+	return b.String()
 }
 
 func c08Key(alg int) string {
@@ -211,7 +237,7 @@ func c08Doc(c c08Case) (enc string, want oracle.ResponseT, xml []byte, err error
 			return "", want, xml, e
 		}
 	}
-	return idp.Encode(xml, spec.Layout.Deflate), want, xml, nil
+	return c08WrapOuter(idp.Encode(xml, spec.Layout.Deflate), c.OuterWrap), want, xml, nil
 }
 
 func c08Conf(c c08Case) world.SPConf {
@@ -460,6 +486,7 @@ func c08Gen(ch *mc.Chooser) c08Case {
 	c.PrefixList = ch.Bool("prefix-list")
 	c.Wrap64 = ch.Bool("wrap64")
 	c.AllowMissing = ch.Bool("no-attribute-statement")
+	c.OuterWrap = ch.Choose("outer-base64-wrap", 5)
 	if c.Placement == 2 {
 		c.C14NA = ch.Choose("c14n-assertion", len(idp.AllC14N)+1)
 		if c.N > 1 {
@@ -529,7 +556,7 @@ func c08Cases(r *mc.Run) []c08Case {
 }
 
 func c08Run(r *mc.Run) {
-	r.Rule = "full product signing placement(3) x signature method(4) x digest(4) x canonicaliser(6) on the default document, plus the full product (placement both) Response canonicaliser(6) x assertion canonicaliser(same + 6) x signed comments(3) x 1-2 assertions x which assertions carry their own signature(3) x InclusiveNamespaces list(2), plus every combination of <=2 (quick) / <=3 (thorough) deviations over 31 layout/content dimensions (no AttributeStatement at all with AllowMissingAttributes, placement, c14n, a different assertion c14n, partially signed assertions, 4 prefix styles, pretty-printing, DEFLATE, 11 lexical re-layouts, comments in signed text, 1-3 assertions, two AttributeStatements, 7 attribute shapes (incl. one Name on several Attribute elements, one attribute with 600 values), 6 AuthnStatement shapes, InResponseTo, 12 NameID strings, 12 attribute-value strings, 7 attribute-valued strings, InclusiveNamespaces prefix list, base64 of digest/signature/certificate wrapped at 64 columns); each lexical re-layout is machine-checked to preserve the parse; non-trivial = accepted and compared field-for-field with the generating spec; distinct = distinct case"
+	r.Rule = "full product signing placement(3) x signature method(4) x digest(4) x canonicaliser(6) on the default document, plus the full product (placement both) Response canonicaliser(6) x assertion canonicaliser(same + 6) x signed comments(3) x 1-2 assertions x which assertions carry their own signature(3) x InclusiveNamespaces list(2), plus every combination of <=2 (quick) / <=3 (thorough) deviations over 32 layout/content dimensions (MIME line wrapping of the outer base64 text, no AttributeStatement at all with AllowMissingAttributes, placement, c14n, a different assertion c14n, partially signed assertions, 4 prefix styles, pretty-printing, DEFLATE, 11 lexical re-layouts, comments in signed text, 1-3 assertions, two AttributeStatements, 7 attribute shapes (incl. one Name on several Attribute elements, one attribute with 600 values), 6 AuthnStatement shapes, InResponseTo, 12 NameID strings, 12 attribute-value strings, 7 attribute-valued strings, InclusiveNamespaces prefix list, base64 of digest/signature/certificate wrapped at 64 columns); each lexical re-layout is machine-checked to preserve the parse; non-trivial = accepted and compared field-for-field with the generating spec; distinct = distinct case"
 	r.Assume("goxmldsig canonicalisers used by the harness signer", "etree parser/canonical writer as harness DOM", "sizes stay below goxmldsig's 1000-element traversal cap")
 	cases := c08Cases(r)
 	r.State(len(cases))
